@@ -166,6 +166,8 @@ class FilesystemRegistry(AbstractRegistry):
         )
 
     def __getitem__(self, item):
+        if "/" in item:  # keys are stems of the files of the root directory
+            raise KeyError(item)
         files = ("{}.{}".format(item, extension) for extension in self._extensions)
         for name in files:
             if self.fs.isfile(name):
